@@ -118,6 +118,11 @@ def scale_modules(rnd, quick):
         body += [('end',), ('i32.const', i + 1), ('i32.add',)]
     m.add_func([I32], [I32], [], body, export='f')
     out.append(('value-block-nest-%d' % d, m, [[x] for x in (0, 1, d // 2, d - 1, d, 0xffffffff)]))
+    # 9 branches to labels 0..139 out of 140 nested blocks (label indices in every minimal LEB128 form)
+    m = hostile.deep_br(140)
+    out.append(('deep-br-140', m, [[x] for x in list(range(0, 140, 7)) + [62, 63, 64, 65, 126, 127, 128, 129, 139, 140, 0xffffffff]]))
+    for k in (63, 64, 127, 128):
+        out.append(('deep-br-140-br%d' % k, m, [[5]], 'br%d' % k))
     return out
 
 
